@@ -290,12 +290,37 @@ func rewriteGo(path, src string) (string, bool) {
 		}
 		changed = true
 	}
+	// pre-emption points: at a few places where go-dcp has no seam of its own (no lock, no I/O) between two
+	// statements whose order relative to another goroutine matters, a call that parks the goroutine until the
+	// simulator's scheduler resumes it (a no-op unless the run armed that site). An anchor that is not found
+	// (the code changed) is skipped.
+	for _, y := range yieldSites {
+		if !strings.HasSuffix(path, y.file) {
+			continue
+		}
+		i := strings.Index(src, y.anchor)
+		if i < 0 || strings.Count(src, y.anchor) != 1 {
+			continue
+		}
+		j := i + len(y.anchor)
+		src = src[:j] + "\n\tvsync.Yield(\"" + y.site + "\")" + src[j:]
+		if !strings.Contains(src, modPath+`/vsync"`) {
+			src = addImport(src, `vsync "`+modPath+`/vsync"`)
+		}
+		changed = true
+	}
 	if changed {
 		if _, err := parser.ParseFile(token.NewFileSet(), path, src, parser.AllErrors); err != nil {
 			die("rewritten %s does not parse: %v", path, err)
 		}
 	}
 	return src, changed
+}
+
+var yieldSites = []struct{ file, anchor, site string }{
+	{"couchbase/async_op.go", "func (m *asyncOp) Wait(op gocbcore.PendingOp, err error) error {", "asyncop.wait"},
+	{"stream/stream.go", "	case <-s.finishStreamWithCloseCh:", "stream.wait.close-token"},
+	{"stream/stream.go", "	case <-s.finishStreamWithEndEventCh:", "stream.wait.end-token"},
 }
 
 func overlay(repo, verif, out string) {
